@@ -235,10 +235,14 @@ def generate():
             for s in h.body:
                 if isinstance(s, ast.Assign) and len(s.targets) == 1 and isinstance(s.targets[0], ast.Name):
                     ph[s.targets[0].id] = s.value
+                elif isinstance(s, ast.Raise):
+                    ok = False      # re-raise: not a placeholder fallback
                 else:
-                    ok = False      # raise / return / anything else: not a placeholder fallback
+                    raise Unsupported("except ValueError body: " + _src(s))
             if ok and sorted(ph) == ["co_filename", "co_name", "f_globals", "f_lineno"]:
                 handled = "true"
+            elif ok or ph:
+                raise Unsupported("except ValueError assigns %r" % sorted(ph))
         elif ftry.handlers:
             raise Unsupported("handlers of the get_frame try: " + ", ".join(_src(h.type) if h.type else "bare" for h in ftry.handlers))
         body += "/-- `except ValueError:` assigns the four placeholders (and nothing else) -/\n"
@@ -268,28 +272,39 @@ def generate():
         if reads != want_reads:
             raise Unsupported("frame reads changed: %r" % (reads,))
         # name = f_globals["__name__"] / except KeyError: name = None
+        name_srcs = ("f_globals['__name__']", 'f_globals["__name__"]')
         ntry = [t for t in tries if len(t.body) == 1 and isinstance(t.body[0], ast.Assign)
                 and _src(t.body[0].targets[0]) == "name"]
-        if len(ntry) != 1 or _src(ntry[0].body[0].value) not in ("f_globals['__name__']", 'f_globals["__name__"]'):
-            raise Unsupported("`name = f_globals['__name__']` try not found")
-        ntry = ntry[0]
-        if top.index(ntry) < top.index(ftry) or ntry.orelse or ntry.finalbody:
-            raise Unsupported("name lookup shape/order")
+        nplain = [x for x in top if isinstance(x, ast.Assign) and _src(x.targets[0]) == "name"]
         nm_handled = "false"
-        if len(ntry.handlers) == 1 and ntry.handlers[0].type is not None and _src(ntry.handlers[0].type) == "KeyError" \
-                and len(ntry.handlers[0].body) == 1 and _src(ntry.handlers[0].body[0]) == "name = None":
-            nm_handled = "true"
-        elif len(ntry.handlers) != 1:
-            raise Unsupported("handlers of the name lookup")
+        if len(ntry) == 1 and not nplain:
+            ntry = ntry[0]
+            if _src(ntry.body[0].value) not in name_srcs:
+                raise Unsupported("name = " + _src(ntry.body[0].value))
+            if top.index(ntry) < top.index(ftry) or ntry.orelse or ntry.finalbody:
+                raise Unsupported("name lookup shape/order")
+            if len(ntry.handlers) == 1 and ntry.handlers[0].type is not None and _src(ntry.handlers[0].type) == "KeyError" \
+                    and len(ntry.handlers[0].body) == 1 and _src(ntry.handlers[0].body[0]) == "name = None":
+                nm_handled = "true"
+            elif len(ntry.handlers) == 1 and ntry.handlers[0].type is not None and _src(ntry.handlers[0].type) == "KeyError" \
+                    and len(ntry.handlers[0].body) == 1 and isinstance(ntry.handlers[0].body[0], ast.Raise):
+                nm_handled = "false"
+            else:
+                raise Unsupported("handlers of the name lookup")
+        elif not ntry and len(nplain) == 1 and _src(nplain[0].value) in name_srcs and top.index(nplain[0]) > top.index(ftry):
+            nm_handled = "false"        # unguarded lookup: a missing __name__ raises KeyError
+        else:
+            raise Unsupported("`name = f_globals['__name__']` not found")
         body += "/-- `except KeyError: name = None` -/\n"
         body += "def missingNameIsNone : Bool := %s\n\n" % nm_handled
         # single assignment of everything the record is built from
-        want_counts = {"frame": 1, "f_globals": 2, "f_lineno": 2, "co_name": 2, "co_filename": 2, "depth": 1,
+        k2 = 2 if handled == "true" else 1
+        want_counts = {"frame": 1, "f_globals": k2, "f_lineno": k2, "co_name": k2, "co_filename": k2, "depth": 1,
                        "file_name": 1, "thread": 1, "process": 1, "elapsed": 1, "current_datetime": 1, "log_record": 1}
         for k, v in want_counts.items():
             if stores.get(k, 0) != v:
                 raise Unsupported("local %s is assigned %d times (expected %d)" % (k, stores.get(k, 0), v))
-        if stores.get("name", 0) < 2 or stores.get("name", 0) > 2:
+        if stores.get("name", 0) != (2 if nm_handled == "true" else 1):
             raise Unsupported("local name is assigned %d times" % stores.get("name", 0))
         defs = {}
         for s in top:
